@@ -70,4 +70,52 @@ def gc_all_members_empty(m):
             and "false" in m.get("detail", {}).get("got", ""))
 
 
-PREDS = {f.__name__: f for f in [mls_even_shared_endpoint, sweep_inexact_crossing, gc_all_members_empty]}
+def monotone_tjunction_panic(m):
+    """monotone_subdivision panics (Option::unwrap on None in monotone/builder.rs) and the input has a T-junction between
+    two different rings: a vertex of one ring lies in the interior of an edge of another ring (members of a multipolygon,
+    or a hole and its shell, touching in a point)."""
+    e = m.get("case", {})
+    if e.get("ev") != "mono" or e.get("st") != "panic" or m.get("sub") != "panic":
+        return False
+    rs = []
+    for q in e["p"]["ps"]:
+        rs.append(q["ext"])
+        rs.extend(q["holes"])
+    for i, r in enumerate(rs):
+        for v in r:
+            for j, s in enumerate(rs):
+                if i == j:
+                    continue
+                for k in range(len(s) - 1):
+                    a, b = s[k], s[k + 1]
+                    if v == a or v == b:
+                        continue
+                    cr = (b[0] - a[0]) * (v[1] - a[1]) - (b[1] - a[1]) * (v[0] - a[0])
+                    if cr == 0 and min(a[0], b[0]) <= v[0] <= max(a[0], b[0]) and min(a[1], b[1]) <= v[1] <= max(a[1], b[1]):
+                        return True
+    return False
+
+
+def _rings_share_point(r, s):
+    def on(v, a, b):
+        cr = (b[0] - a[0]) * (v[1] - a[1]) - (b[1] - a[1]) * (v[0] - a[0])
+        return cr == 0 and min(a[0], b[0]) <= v[0] <= max(a[0], b[0]) and min(a[1], b[1]) <= v[1] <= max(a[1], b[1])
+    return any(on(v, s[k], s[k + 1]) for v in r for k in range(len(s) - 1)) or any(on(v, r[k], r[k + 1]) for v in s for k in range(len(r) - 1))
+
+
+def stitch_hole_chain(m):
+    """stitch_triangulation of the constrained triangles of a polygon in which one hole touches BOTH the shell and another
+    hole (a chain of point contacts from the shell inwards): the boundary lines then form one self-touching ring next to
+    the outer ring and the parent / child bookkeeping returns two polygons that contain each other."""
+    e = m.get("case", {})
+    if e.get("ev") != "stitch" or m.get("sub") not in ("stitch_area", "ring_direction", "stitch_region", "ring_not_closed"):
+        return False
+    for q in e["p"]["ps"]:
+        hs = q["holes"]
+        for i, h in enumerate(hs):
+            if _rings_share_point(h, q["ext"]) and any(j != i and _rings_share_point(h, g) for j, g in enumerate(hs)):
+                return True
+    return False
+
+
+PREDS = {f.__name__: f for f in [mls_even_shared_endpoint, sweep_inexact_crossing, gc_all_members_empty, monotone_tjunction_panic, stitch_hole_chain]}
